@@ -69,8 +69,17 @@ Definition ogg_f_need {A} (eof : exc) (o : option A) : result A :=
 (* the page search at the start of each _inject; result: the pages from the first comment page on *)
 Definition ogg_f_locate (c : ogg_codec) (l : list (Z * page)) (eof : exc) : result (list (Z * page)) :=
   match c with
-  | OVorbis => ogg_f_need eof (ogg_f_find (ogg_f_pk0 ogg_f_vorbis3) l)
-  | OTheora => ogg_f_need eof (ogg_f_find (ogg_f_pk0 ogg_f_theora81) l)
+  | OVorbis =>
+    (* the stream of the first identification header, then its first page starting the comment header *)
+    match ogg_f_find (ogg_f_pk0 ogg_f_vorbis1) l with
+    | Some (h :: r) => ogg_f_need eof (ogg_f_find (fun p => (p_serial p =? p_serial (snd h)) && ogg_f_pk0 ogg_f_vorbis3 p) r)
+    | _ => Raise eof
+    end
+  | OTheora =>
+    match ogg_f_find (ogg_f_pk0 ogg_f_theora80) l with
+    | Some (h :: r) => ogg_f_need eof (ogg_f_find (fun p => (p_serial p =? p_serial (snd h)) && ogg_f_pk0 ogg_f_theora81 p) r)
+    | _ => Raise eof
+    end
   | OSpeex =>
     match ogg_f_find (ogg_f_pk0 ogg_f_speex) l with
     | Some (h :: r) => ogg_f_need eof (ogg_f_find (fun p => p_serial p =? p_serial (snd h)) r)
@@ -119,7 +128,8 @@ Definition ogg_f_new_packet (c : ogg_codec) (t : vc) (pad : list Z) (cb : option
     match c with
     | OFlac =>
       (* packets[0][:1] + struct.pack(">I", len(data))[-3:] + data *)
-      if U32 <=? zlen data then Raise EStruct else Ok (ztake 1 old ++ be_encode 3 (zlen data) ++ data)
+      (* if len(data) > 0xFFFFFF: raise error(...) -- the block length field has 24 bits *)
+      if MAXSZ <? zlen data then Raise EMutagen else Ok (ztake 1 old ++ be_encode 3 (zlen data) ++ data)
     | _ =>
       let vdata := ogg_f_tagprefix c ++ data ++ (match c with OVorbis => [1] | _ => [] end) in
       match c, pad with
